@@ -180,6 +180,20 @@ func RandomModel(r *rand.Rand, o ModelOpts) *Model {
 		for i := 0; i < nPMT; i++ {
 			m.PMTs = append(m.PMTs, pickPID(r, used))
 		}
+		// program numbers: 1..n, or values that COINCIDE with PMT PIDs - the program's own (the layout many broadcasters use) or the
+		// one of the program listed after / before it (program numbers and PIDs are independent 16 / 13 bit values: nothing that
+		// is keyed by one may be looked up by the other)
+		progNum := func(i int) uint16 { return uint16(i + 1) }
+		if n := len(m.PMTs); n > 0 {
+			switch r.IntN(5) {
+			case 0:
+				progNum = func(i int) uint16 { return m.PMTs[i] }
+			case 1:
+				progNum = func(i int) uint16 { return m.PMTs[(i+1)%n] }
+			case 2:
+				progNum = func(i int) uint16 { return m.PMTs[(i+n-1)%n] }
+			}
+		}
 		nu := 1 + r.IntN(o.MaxUnits)
 		// a PAT is the union of its sections: sometimes every PMT PID is announced by one section only
 		split := len(m.PMTs) >= 2 && r.IntN(3) == 0
@@ -192,6 +206,12 @@ func RandomModel(r *rand.Rand, o ModelOpts) *Model {
 			if split {
 				nsec = splitN
 			}
+			// a later PAT may hand the PMT PIDs to other programs (a rotation: every PID keeps its role, the program it carries
+			// changes, so a PID one program leaves is the PID another one moves to)
+			rot := 0
+			if n := len(m.PMTs); k > 0 && n >= 2 && r.IntN(3) == 0 {
+				rot = 1 + r.IntN(n-1)
+			}
 			var secs []*astits.PSISection
 			for j := 0; j < nsec; j++ {
 				extra := 0
@@ -199,11 +219,11 @@ func RandomModel(r *rand.Rand, o ModelOpts) *Model {
 					extra = r.IntN(900)
 				}
 				s := SimpleSection(r, refts.KindPAT, serial, extra)
-				for i, p := range m.PMTs {
+				for i := range m.PMTs {
 					if split && i%nsec != j {
 						continue
 					}
-					s.Syntax.Data.PAT.Programs = append(s.Syntax.Data.PAT.Programs, &astits.PATProgram{ProgramNumber: uint16(i + 1), ProgramMapID: p})
+					s.Syntax.Data.PAT.Programs = append(s.Syntax.Data.PAT.Programs, &astits.PATProgram{ProgramNumber: progNum(i), ProgramMapID: m.PMTs[(i+rot)%len(m.PMTs)]})
 				}
 				if o.SharedPMTPID && len(m.PMTs) > 0 && (!split || j == 0) {
 					// two programs whose PMTs travel on one PID (legal, and common in statistical multiplexes)
@@ -304,7 +324,17 @@ func RandomModel(r *rand.Rand, o ModelOpts) *Model {
 			if o.SmallUnits {
 				l = 8 + r.IntN(150)
 			}
-			u := NewPESUnit(r, p, serial, PESOpts{DataLen: l, Unbounded: r.IntN(3) == 0, Salt: o.Salt, WithPTS: r.IntN(2) == 0})
+			po := PESOpts{DataLen: l, Unbounded: r.IntN(3) == 0, Salt: o.Salt, WithPTS: r.IntN(2) == 0}
+			// stream ids other than the first audio / video one: padding stream and private stream 2, which are nothing but their
+			// data bytes (no flags, no PTS; their length is always given), private stream 1, a later audio / video stream, the
+			// extended stream id
+			switch r.IntN(8) {
+			case 0:
+				po.StreamID, po.Unbounded, po.WithPTS = 0xbe+uint8(r.IntN(2)), false, false
+			case 1:
+				po.StreamID = []uint8{0xbd, 0xfd, uint8(0xc1 + r.IntN(31)), uint8(0xe1 + r.IntN(15))}[r.IntN(4)]
+			}
+			u := NewPESUnit(r, p, serial, po)
 			u.TSC = tsc
 			serial++
 			first, last := 0, 0
